@@ -229,7 +229,9 @@ def main(seed, tier, prop="C08"):
     with_pos = sorted(cc for cc, s in tab.items() if "positions" in s)
     without = sorted(cc for cc, s in tab.items() if "positions" not in s)
     specs = [("props.c08", "GenerateTask", (cc,)) for cc in with_pos]
-    specs += [("props.c08", "UnsupportedCountryTask", (cc,)) for cc in without + ["XX", "ZZ"]]
+    # unknown and malformed country codes (lower case, padded, truncated): a library error, nothing else
+    specs += [("props.c08", "UnsupportedCountryTask", (cc,)) for cc in without + ["XX", "ZZ", "de", "De", " DE", "DE ", "", "D",
+                                                                                  "DEU", "D1", "dé"]]
     specs += [("props.c06", "LuhnTask", (13,)), ("props.c06", "GetIndexTask", ())]
     results = common.run_tasks(specs, seed, tier)
     from props.c01 import ASSUMPTIONS
